@@ -113,18 +113,20 @@ CLAIMED = {
             "(atomicity violations that are not data races, >2 threads and weak memory are outside); TSan confirms race counterexamples natively",
             "bounded model checking (cbmc) of LLVM-IR-derived C with ghost reference model and lockset race instrumentation"),
     "C12": ("model_checking",
-            "cbmc bounded model checking of TransactionalValue/TransactionalBuffer: every operation-level interleaving of producers and consumer up to the bound against a reference "
-            "model (values assigned, in order, update() truth, last value delivered; each element in exactly one batch, per-producer order, size/empty), plus the obligation that every "
-            "access to the shared object happens under its mutex (lockset instrumentation of all IR loads/stores on the object's bytes), which is what makes operation granularity sound.",
+            "Three units over TransactionalValue/TransactionalBuffer. cbmc: every operation-level interleaving of producers and consumer up to the bound against a reference model, plus the obligation that every "
+            "access to the shared object happens under its mutex (lockset instrumentation of all IR loads/stores on the object's bytes) - this decides data races. vp/llpath.py (two units): the real std::mutex code "
+            "with real producer threads under EVERY schedule with a bounded number of preemptions, also inside operations: values never torn / always assigned ones / in order, update() true exactly when newer, last value "
+            "delivered; each pushed element in exactly one batch, in its producer's order.",
             "DESIGN.md 3/C12",
-            "4 (quick) / 6 (thorough) scheduled operations; <= 2 producers; int payload; sequential consistency; pthread mutex by model; race counterexamples confirmed with ThreadSanitizer",
-            "bounded model checking (cbmc) with lockset race instrumentation, TSan replay"),
+            "cbmc: 4 (quick) / 6 (thorough) scheduled operations, <= 2 producers, int payload; llpath: producer with 2 assignments vs 6 update/get rounds, <= 3 / 4 preemptions; 2 producers x 2 pushes, <= 2 / 3 preemptions; sequential consistency",
+            "bounded model checking (cbmc) with lockset race instrumentation + symbolic execution with bounded schedule exploration (vp/llpath.py); TSan / widened-window native replay"),
     "C19": ("model_checking",
-            "cbmc bounded model checking of Observable/Observer (three fixed object lifecycles x every notify/poll pattern up to the bound, against a per-observer reference model; "
-            "no access to freed memory in either destruction order) and of TimeStamp (one step from an arbitrary counter; two real cbmc threads x (create+renew) over all interleavings: values distinct, per-thread increasing).",
+            "Symbolic execution (vp/llpath.py) of the real Observable/Observer/TimeStamp code: every history of create/destroy observer, notify, poll, destroy observable up to the bound against a "
+            "per-observer pending-flag reference, with dangling pointers as heap obligations (use after free); three fixed lifecycles with symbolic notify/poll patterns; TimeStamp from a symbolic "
+            "counter value; two real threads x (create+renew) under every schedule with bounded preemptions: values distinct, per-thread increasing.",
             "DESIGN.md 3/C19",
-            "notify/poll phases of length 2 (quick) / 3 (thorough); 1 observable, 2 observers; lifecycles fixed per entry (fully symbolic lifecycles do not finish); counter wrap at 2^64 outside; SC, 2 threads",
-            "bounded model checking (cbmc), incl. cbmc's native thread interleaving for the pointer-free TimeStamp code"),
+            "histories of 4 (quick) / 6 (thorough) actions, 1 observable, <= 3 observers; notify/poll patterns of length 2 / 3; 2 threads, <= 2 / 4 preemptions, sequential consistency; counter wrap at 2^64 and copying Observers outside",
+            "symbolic execution of LLVM IR with z3 and bounded schedule exploration (vp/llpath.py), native sanitizer replay"),
     "C20": ("model_checking",
             "cbmc bounded model checking of SaveImage.h for all six writers and every image size up to the bound with symbolic pixel values: header format string and dimensions, payload length, "
             "decoded pixels (row flip, channel selection), file closed, and no read outside the width x height pixels given (exact heap bounds). stdio is replaced by a capturing model.",
@@ -132,15 +134,14 @@ CLAIMED = {
             "image sizes 1..2 (quick) / 1..3 (thorough) in each dimension; tracing::saveLog and event recording NOT covered (std::ofstream/unordered_map/chrono internals cannot be encoded within reach)",
             "bounded model checking (cbmc) of LLVM-IR-derived C with an stdio capture model, ASan replay"),
     "C03": ("model_checking",
-            "cbmc bounded model checking of the real AsyncLoop code (constructor, loop-thread lambda run through std::thread's _State_impl::_M_run, start, stop, destructor): the loop thread "
-            "runs as the main flow and every sequence of complete controller operations is injected at its RKCOMMON_VERIF scheduling points and while it is blocked in condition_variable::wait; "
-            "ghost state decides P1 (no body begins after stop() returned), P2 (no lost wake-up after start()), P3 (destructor's notify un-parks the thread; it joins). Counterexamples are "
-            "replayed natively with the loop thread parked at the named point.",
+            "Two units over the real AsyncLoop code. (1) vp/llpath.py: the real std::thread / std::mutex / std::condition_variable code executed on the engine's thread model, scenario "
+            "[stop] start - wait for a body - stop - [start again] - destroy under EVERY schedule with a bounded number of preemptions (controller may be suspended mid-operation): body runs within "
+            "bounded time after start() (no lost wake-up / deadlock), nothing in progress or beginning after stop() returned, destructor joins. (2) cbmc: the loop thread runs as the main flow and every "
+            "sequence of complete controller operations is injected at its RKCOMMON_VERIF scheduling points and while it is blocked in condition_variable::wait; ghost state decides P1-P3.",
             "DESIGN.md 3/C03",
-            "THREAD launch; <= 1 (quick) / 2 (thorough) controller operations after an optional initial start(); <= 1/2 body invocations (unwinding assumption); controller operations are atomic "
-            "with respect to the loop thread (schedules with the controller suspended mid-operation are not explored: cbmc's own thread interleaving aborts on pointer-carrying shared state); SC; "
-            "no spurious wake-ups; TASK launch's TBB execution outside",
-            "bounded model checking (cbmc) with schedule injection at named hook points, native forced-schedule replay"),
+            "THREAD launch; llpath: <= 2 (quick) / 3 (thorough) preemptions placed before synchronisation calls, atomic stores / read-modify-writes, condition waits and after mutex releases; cbmc: <= 1 / 2 controller "
+            "operations after an optional initial start(), <= 1/2 body invocations; sequential consistency; no spurious wake-ups; TASK launch's TBB execution outside",
+            "symbolic execution with bounded schedule exploration (vp/llpath.py) + bounded model checking (cbmc) with schedule injection at hook points; native replay with widened windows"),
     "C09": ("model_checking",
             "cbmc bounded model checking of the real Optional<T>/Any code for every copy/move/assign/construct path with engaged and empty sources and targets (each combination its own "
             "obligation, payload values symbolic), value-level operations, comparisons and conversions, with a ghost lifetime map on an instrumented payload (constructor only on dead storage, "
@@ -150,13 +151,12 @@ CLAIMED = {
             "error-message formatting (stringstream, demangle) opaque; getEnvVar and printed text outside",
             "bounded model checking (cbmc) with ghost lifetime instrumentation, ASan/UBSan replay"),
     "C10": ("model_checking",
-            "cbmc bounded model checking of FlatMap<int,int>: one operation (operator[] write/read-insert, at, erase, clear, contains) with a symbolic key from an arbitrary valid state of N entries "
-            "with symbolic distinct keys and values, compared with an insertion-ordered reference map incl. iteration and at_index order - an inductive step covering histories of any length "
-            "within the size bound; ParameterizedObject scenarios with symbolic values (exact/wrong-type reads, default, query flag, reset).",
+            "Symbolic execution (vp/llpath.py) of the real FlatMap<int,int> code (std::vector, std::stable_partition as real header code): one operation (operator[] write/read-insert, at, erase, clear, contains) "
+            "with a symbolic key from an arbitrary valid state of N entries with symbolic distinct keys and values, compared with an insertion-ordered reference map incl. iteration and at_index order - an "
+            "inductive step covering histories of any length within the size bound; ParameterizedObject scenarios with symbolic values (exact/wrong-type reads, default, query flag, reset, type change, removal).",
             "DESIGN.md 3/C10",
-            "state size N <= 2 (quick) / 3 (thorough); erase (std::stable_partition) only N <= 1 / 2 with recursion bound; ParameterizedObject: fixed scenarios (two-name scenarios only in thorough, may be inconclusive); "
-            "int keys/values; names 'a','b' via the libstdc++ string model",
-            "bounded model checking (cbmc) of LLVM-IR-derived C, inductive one-step harness with reference model"),
+            "state size N <= 4 (quick) / 5 (thorough); int keys/values (all 2^32 each); ParameterizedObject: three fixed scenarios with names 'a','b'; allocation never fails",
+            "symbolic execution of LLVM IR with z3 (vp/llpath.py), inductive one-step harness with reference model, native sanitizer replay"),
     "C14": ("model_checking",
             "cbmc bounded model checking of aligned_allocator<T,64>::allocate/deallocate for every 64-bit element count (n=0, length_error beyond max_size without an allocation call, exact "
             "n*sizeof(T) bytes without wrap, bad_alloc on null, aligned and usable result), alignedMalloc/alignedFree over every power-of-two alignment 1..4096 with posix_memalign by contract "
@@ -204,7 +204,8 @@ def main():
         "engines": [{"name": "vp", "path": "vp/check.py",
                      "serves_properties": sorted(CLAIMED),
                      "kind_free_text": "clang++-14 -O1 LLVM IR of harness TUs over the real headers/sources -> own IR front end (vp/llir.py) -> "
-                                       "ll2c (IR->C) + cbmc 6.11 bounded model checking, or ll2smt (IR->SMT) + z3/cvc5; native ASan/UBSan/TSan replay"}],
+                                       "ll2c (IR->C) + cbmc 6.11 bounded model checking, or ll2smt (IR->SMT) + z3, or llpath (path-forking symbolic execution of the IR with z3, "
+                                       "thread model with bounded schedule exploration); native ASan/UBSan/TSan replay"}],
         "checks": checks,
         "notes": "All checks rebuild their encodings from /repo's working tree on every run. Exit 2 = machinery error (never used to hide a violation).",
         "not_applicable": na,
